@@ -230,6 +230,7 @@ macro_rules! chain_harnesses {
 chain_harnesses!(u8_u16_p5, u8, u16, 5, kissat);
 chain_harnesses!(u8_u16_p8, u8, u16, 8, kissat);
 chain_harnesses!(u8_u16_p3, u8, u16, 3, kissat);
+chain_harnesses!(u8_u32_p8, u8, u32, 8, kissat);   // only `exports` is registered at this width (State = 4 Words)
 
 /// C13 (bounded): the three documented routes. from_binary(k words) -> decode 2 symbols ->
 /// into_remainders -> from_remainders -> encode both back in reverse -> into_binary == the k words.
